@@ -1,19 +1,28 @@
 #!/bin/bash
-# regression over all kept seeded changes: apply each to /repo, run the checks recorded in
-# meta.json caught_by, expect exit 1 with a VIOLATION line, undo.  usage: selftest/reseed_all.sh [regex]
+# Regression over all kept seeded changes.  Each patch is applied to a SCRATCH copy of /repo's HEAD (outside /repo and
+# /verif, removed afterwards; the first confirmation of a seed is done on /repo itself by selftest/seed.sh), the checks
+# recorded in meta.json (caught_by; caught_by_thorough_only with --tier thorough and the cyclic-core families only) are
+# run against it and must exit 1 with a VIOLATION line.  usage: selftest/reseed_all.sh [regex]
 HERE="$(cd "$(dirname "${BASH_SOURCE[0]}")/.." && pwd)"
 bad=0
 for d in "$HERE"/seeded/*/; do
   n=$(basename "$d"); [[ -n "$1" && ! "$n" =~ $1 ]] && continue
   checks=$(python3 -c "import json,sys; print(' '.join(json.load(open('$d/meta.json')).get('caught_by', [])))")
-  [ -z "$checks" ] && { echo "$n: no caught_by recorded"; continue; }
-  git -C /repo apply "$d/patch.diff" || { echo "$n: patch does not apply"; bad=1; continue; }
+  tchecks=$(python3 -c "import json,sys; print(' '.join(json.load(open('$d/meta.json')).get('caught_by_thorough_only', [])))")
+  [ -z "$checks$tchecks" ] && { echo "$n: no caught_by recorded"; continue; }
+  S=$(mktemp -d /tmp/ovc_reseed_XXXXXX)
+  git -C /repo archive HEAD | tar -x -C "$S"
+  (cd "$S" && patch -p1 -s < "$d/patch.diff") || { echo "$n: patch does not apply to HEAD"; bad=1; rm -rf "$S"; continue; }
   for c in $checks; do
-    OVC_OUT_DIR=/tmp/reseed_out_$$ "$HERE/bin/ovc" check "$c" --tier quick > /tmp/reseed_check.log 2>&1; rc=$?
-    v=$(grep -c '^VIOLATION' /tmp/reseed_check.log)
-    if [ $rc -eq 1 ] && [ $v -gt 0 ]; then echo "$n: $c caught ($v VIOLATION lines, $(grep '^VIOLATION' /tmp/reseed_check.log | grep -vc no-failing-input-found) replayed)"; else echo "$n: $c MISSED (exit=$rc)"; bad=1; fi
+    OVC_REPO_ROOT="$S" OVC_OUT_DIR="$S/out" "$HERE/bin/ovc" check "$c" --tier quick > "$S/log" 2>&1; rc=$?
+    v=$(grep -c '^VIOLATION' "$S/log")
+    if [ $rc -eq 1 ] && [ $v -gt 0 ]; then echo "$n: $c caught ($v VIOLATION lines, $(grep '^VIOLATION' "$S/log" | grep -vc no-failing-input-found) replayed)"; else echo "$n: $c MISSED (exit=$rc)"; bad=1; fi
   done
-  git -C /repo checkout -- . ; rm -rf /tmp/reseed_out_$$
+  for c in $tchecks; do
+    OVC_ONLY=cyclic OVC_REPO_ROOT="$S" OVC_OUT_DIR="$S/out" "$HERE/bin/ovc" check "$c" --tier thorough > "$S/log" 2>&1; rc=$?
+    v=$(grep -c '^VIOLATION' "$S/log")
+    if [ $rc -eq 1 ] && [ $v -gt 0 ]; then echo "$n: $c (thorough, cyclic-core families) caught ($v VIOLATION lines)"; else echo "$n: $c (thorough) MISSED (exit=$rc)"; bad=1; fi
+  done
+  rm -rf "$S"
 done
-git -C /repo status --short | grep -v generated_foo
 exit $bad
